@@ -18,6 +18,14 @@ fn main() {
                 println!("{id}");
             }
         }
+        "c06-worker" => {
+            let seed: u64 = args[2].parse().unwrap_or(1);
+            let cases: u64 = args[3].parse().unwrap_or(1);
+            std::process::exit(props::c06::worker_main(seed, cases, &args[4]));
+        }
+        "c06-text" => {
+            std::process::exit(props::c06::text_main(&args[2]));
+        }
         "probe" => {
             // vcheck probe <replay.json> [text]
             let body: serde_json::Value =
